@@ -4,7 +4,7 @@
 # differently when pickling and when unpickling stateful objects.  Shown through the public API on every cassette type.
 # exit 0 = round trip exact on all cassettes, 1 = data differs after save / fetch.
 import os, shutil, sys, tempfile
-sys.path.insert(0, '/repo') if '/repo' not in sys.path else None
+sys.path.insert(0, __import__('os').environ.get('PYVC_REPO', '/repo'))
 sys.path.insert(0, os.path.join(os.path.dirname(os.path.dirname(os.path.abspath(__file__)))))
 import fake_boto3
 fake_boto3.install()
